@@ -105,6 +105,7 @@ def run(ctx) -> None:
     rng = ctx.rng
     ctx.require("climatology.calls", 1000)
     ctx.require("climatology.w1_boundary_cases", 500)
+    ctx.require("climatology.config_object_reuse_calls", 50)
     # ---- W1: one point, one member, all boundary combinations
     T = epoch("2020-12-31", 86399)  # ISO week 53, day of year 366, quarter 4, Thursday
     V, Z = 10.0, 5.0
@@ -169,3 +170,22 @@ def run(ctx) -> None:
             tspan = [a, b] if rng.random() < 0.85 else [b, a]
             members.append({"tspan": tspan, "vspan": vspan, "fspan": fspan, "zspan": zspan, "period": kind})
         clim_case(ctx, members, x, t, z, "w2", carrier=rng.choice(CARRIERS), as_object=rng.random() < 0.3)
+        # history: ONE ClimatologyConfig object used for several series of the same length (a config object is
+        # meant to be built once and applied to many series)
+        if members and n and rng.random() < 0.35:
+            import ioos_qc.qartod as q
+
+            obj = to_call(rng, members, as_object=True)
+            for _rep in range(3):
+                t2 = sorted({epoch(rng.choice(EDGE_DAYS), rng.choice([0, 1, 43200, 86399])) for _ in range(n * 3)})[:n]
+                if len(t2) != n:
+                    continue
+                x2 = [None if rng.random() < 0.1 else gen.dyadic(rng, 0, 6, 2) for _ in range(n)]
+                kw = {"config": obj, "inp": gen.arr(x2), "tinp": gen.times(t2), "zinp": gen.arr(z)}
+                client.expect(ctx, "C08", "qartod.climatology_test", kw, lambda: models.climatology(members, x2, t2, z),
+                              logical={"members": members, "x": x2, "t": t2, "z": z, "note": "config object reused from an earlier call"},
+                              hist="climatology")
+                ctx.count("climatology.calls")
+                ctx.count("climatology.config_object_reuse_calls")
+                ctx.case(f"reuse|{mkind(members)}|n{gen.nclass(n)}")
+            _ = q
